@@ -17,6 +17,7 @@ class Invalid(Exception):
     def __init__(self, reason, detail=""):
         super().__init__("%s %s" % (reason, detail))
         self.reason = reason
+        self.detail = detail
 
 
 def is_int(x):
